@@ -259,25 +259,42 @@ def gen_tie(pid: str):
     os.makedirs(d, exist_ok=True)
     out = dict(ok=True, files=files, theorems=[], axioms=[], log="", failed=None, untranslated={}, units=0)
     try:
-        try:
-            text, errors = translate(REPO)
-        except Exception as e:  # noqa: BLE001  (fail-closed: a source the translator cannot even parse)
-            out.update(ok=False, failed="py2coq translation", log=repr(e))
-            return out
-        out["untranslated"] = errors
-        out["units"] = text.count("\nDefinition ")
-        mctx = re.search(r"Context \{A : Arith\}(.*)\.\n", text)
-        out["oracles"] = re.findall(r"\((\w+) :", mctx.group(1)) if mctx else []
-        if re.search(r"(?<![A-Za-z_0-9'])(Admitted|admit|Axiom|Axioms|Parameter|Parameters|Conjecture|Variable|Hypothesis|native_compute|Unset)(?![A-Za-z_0-9'])", re.sub(r"\(\*.*?\*\)", "", text, flags=re.S)):
-            out.update(ok=False, failed="generated GSrc.v contains forbidden vernacular", log=text[:2000])
-            return out
-        with open(os.path.join(d, "GSrc.v"), "w") as f:
-            f.write(text)
         flags = f"-Q {COQ} FV -Q . FVG -w {COQ_W}"
-        rc, o, e = sh(f"timeout 300 coqc {flags} GSrc.v", cwd=d, timeout=330)
-        if rc != 0:
-            out.update(ok=False, failed="GSrc.v (generated from the source) does not type-check", log=(o + e)[-3000:])
-            return out
+        FORBIDDEN = r"(?<![A-Za-z_0-9'])(Admitted|admit|Axiom|Axioms|Parameter|Parameters|Conjecture|Variable|Hypothesis|native_compute|Unset)(?![A-Za-z_0-9'])"
+        imports = set()
+        for fn in files:
+            for m in re.finditer(r"From FVG Require Import ([^.]*)\.", open(os.path.join(COQ, "Gen", fn)).read()):
+                imports |= set(m.group(1).split())
+        errors, out["oracles"] = {}, []
+        # which generated modules the equivalence files import: GSrc (methods of stateful objects, py2coq) and / or GFn
+        # (pure static functions, fn2coq)
+        gens = []
+        if "GSrc" in imports or "GFn" not in imports:
+            gens.append(("GSrc.v", "py2coq", translate))
+        if "GFn" in imports:
+            from gen_units import translate_fns
+
+            gens.append(("GFn.v", "fn2coq", lambda repo: translate_fns(repo)[:2]))
+        for gname, tool, trans in gens:
+            try:
+                text, errs = trans(REPO)
+            except Exception as e:  # noqa: BLE001  (fail-closed: a source the translator cannot even parse)
+                out.update(ok=False, failed=f"{tool} translation", log=repr(e))
+                return out
+            errors.update(errs)
+            out["units"] += text.count("\nDefinition ") - (text.count("\nDefinition g_") if gname == "GFn.v" else 0)
+            mctx = re.search(r"Context \{A : Arith\}(.*)\.\n", text)
+            out["oracles"] += re.findall(r"\((\w+) :", mctx.group(1)) if mctx else []
+            if re.search(FORBIDDEN, re.sub(r"\(\*.*?\*\)", "", text, flags=re.S)):
+                out.update(ok=False, failed=f"generated {gname} contains forbidden vernacular", log=text[:2000])
+                return out
+            with open(os.path.join(d, gname), "w") as f:
+                f.write(text)
+            rc, o, e = sh(f"timeout 300 coqc {flags} {gname}", cwd=d, timeout=330)
+            if rc != 0:
+                out.update(ok=False, failed=f"{gname} (generated from the source) does not type-check" + (f"; untranslated: {errors}" if errors else ""), log=(o + e)[-3000:])
+                return out
+        out["untranslated"] = errors
         def one(fn):
             shutil.copy(os.path.join(COQ, "Gen", fn), os.path.join(d, fn))
             rc, o, e = sh(f"timeout 900 coqc {flags} {fn}", cwd=d, timeout=930)
@@ -288,7 +305,7 @@ def gen_tie(pid: str):
             txt = open(os.path.join(COQ, "Gen", fn)).read()
             imp = set()
             for m in re.finditer(r"From FVG Require Import ([^.]*)\.", txt):
-                imp |= {w + ".v" for w in m.group(1).split() if w != "GSrc"}
+                imp |= {w + ".v" for w in m.group(1).split() if w not in ("GSrc", "GFn")}
             return imp
         need = {fn: deps(fn) for fn in files}
         missing = sorted({x for v in need.values() for x in v} - set(files))
@@ -592,7 +609,7 @@ class Check:
                 "hand-written Gallina models, tied to /repo by this run's correspondence check (differential testing, not proof)",
                 "harness/*.py, CPython 3.12, NumPy/SciPy as installed",
             ] + ([
-                f"source tie: harness/py2coq.py (fail-closed translator, semantics assumed as stated in its header; typing hints in harness/gen_units.py) "
+                f"source tie: harness/py2coq.py (methods of stateful objects) / harness/fn2coq.py (pure static functions) -- fail-closed translators, semantics assumed as stated in their headers; typing hints in harness/gen_units.py -- "
                 f"generated {proof['source_tie']['units']} definitions from /repo's current source; coq/Gen/{', '.join(proof['source_tie']['files'])} prove them equal to the model "
                 f"(ok={proof['source_tie']['ok']}; not translated: {proof['source_tie']['untranslated'] or 'none'}); library calls kept as uninterpreted function parameters of the generated file: "
                 f"{', '.join(proof['source_tie'].get('oracles') or []) or 'none'}"
